@@ -38,3 +38,20 @@ func IntMode(on bool) {}
 // satisfiable (an existential query over the symbolic variables c mentions).
 // Natively it can only report the truth of c under the witness.
 func Exists(c bool) bool { return c }
+
+// Preemptions bounds the number of preemptive context switches explored per
+// path (-1: unbounded). Switches at blocking operations are never bounded.
+func Preemptions(n int) {}
+
+// SetArgs sets os.Args for an interpreted main (engine); natively it records them for RunMain.
+func SetArgs(args []string) {}
+
+// SetFile creates a virtual file (engine) or a real temporary file (native).
+func SetFile(path, content string) {}
+
+// RunMain runs f (normally main) and returns the process exit code; the
+// standard output is available through Output afterwards.
+func RunMain(f func()) int { f(); return 0 }
+
+// ErrOutput returns what was written to standard error.
+func ErrOutput() string { return "" }
